@@ -47,6 +47,11 @@ type origMaterial struct {
 // and the first signing batch.
 var reinitRestarts = ""
 
+// reinitFailWrite > 0: on node 0 the reinitFailWrite-th store write made while the operator hands
+// in the answer to the reinit operation fails once (a full disk, as in C09's base states); the
+// operator hands the same result file in again.
+var reinitFailWrite = 0
+
 // c20KeyPrefix distinguishes the violation classes of a dedicated scenario.
 var c20KeyPrefix = ""
 
@@ -153,6 +158,36 @@ func reinitAndCheck(r *kit.Run, om origMaterial, label string, adapt bool, strip
 	if err := w2.Nodes[0].Svc.ReInitDKG(&dto.ReInitDKGDTO{ID: re.DKGID, Payload: payload}); err != nil {
 		viol("reinit-api-refused", err.Error())
 		return
+	}
+	if reinitFailWrite > 0 {
+		if err := w2.DrainAll(); err != nil {
+			viol("reinit-does-not-complete", err.Error())
+			return
+		}
+		nd0 := w2.Nodes[0]
+		for _, op := range nd0.PendingOps() {
+			if string(op.Type) != string(types.ReinitDKG) {
+				continue
+			}
+			res, err := w2.Airs[0].Process(op)
+			if err != nil {
+				viol("reinit-does-not-complete", "machine 0: "+err.Error())
+				return
+			}
+			nd0.Mem.Arm(reinitFailWrite)
+			first := nd0.SubmitResult(cloneOp15(res))
+			fired := nd0.Mem.Disarm()
+			r.Add("reinit_results_handed_in_across_a_failing_write", b2i(fired))
+			if fired && first == nil {
+				viol("failed-write-unnoticed", fmt.Sprintf("store write %d failed while the reinit result was handed in, the request reported success", reinitFailWrite))
+			}
+			if first != nil {
+				// the operator hands the same file in again; whether the node takes it or says the
+				// operation is gone (its effect may be complete but for the last write) is left open -
+				// what counts is the state the procedure ends in, judged below like every other
+				_ = nd0.SubmitResult(cloneOp15(res))
+			}
+		}
 	}
 	if err := w2.RunToQuiescence(); err != nil {
 		viol("reinit-does-not-complete", err.Error())
@@ -582,6 +617,21 @@ func c20(tier string, args []string) int {
 	}
 	reinitAndCheck(r, om014, "authentic 0.1.4 log (client/test_data/0_1_4_log.csv)", true, false)
 	scen++
+	// a store write fails once while an operator hands in the answer to the reinit operation; the
+	// result file is handed in again (the 0.1.4 log's key messages carry no polynomial: the node
+	// has it from that answer alone)
+	for k := 1; k <= 4; k++ {
+		reinitFailWrite = k
+		c20KeyPrefix = "write-fails-while-the-reinit-result-is-handed-in/"
+		reinitAndCheck(r, om014, fmt.Sprintf("authentic 0.1.4 log, store write %d fails once on node 0 while the reinit result is handed in", k), true, false)
+		if lastOM.Round != "" {
+			reinitAndCheck(r, lastOM, fmt.Sprintf("recorded ceremony, store write %d fails once on node 0 while the reinit result is handed in", k), false, false)
+			scen++
+		}
+		scen++
+	}
+	reinitFailWrite = 0
+	c20KeyPrefix = ""
 
 	// ---- hash clause
 	for _, src := range []struct {
